@@ -540,6 +540,11 @@ def twin_clause(ctx, cases, impl):
 
 
 def run(ctx):
+    # detector objects are independent of one another (a consequence of "the outputs are a function of the detector's own
+    # parameters and history"): solo trace = trace when a second object of the class is updated alternately (impl/zoo.py)
+    from impl import zoo as _zoo
+    for _f in _zoo.isolation_failures(ctx, ['PCACD']):
+        ctx.fail(signature={"clause": "detector-objects-independent"}, **_f)
     from menelaus.data_drift import PCACD
     from menelaus.change_detection import PageHinkley
     ctx.rule = ("a case = (configuration, stream); configurations from window_size {20,50,100} x ev_threshold {.5,.9,.99} x delta menu x "
